@@ -243,7 +243,7 @@ func c04InDomain(doc *XElem) bool {
 
 func c04Run(c *Ctx) {
 	mustBeDefault(c)
-	c.S.Rule = "cases = (document, path): documents are all element trees with <= N elements (sibling names over {a,b}, every interleaving) with <= D decorations from: attributes (plain, namespaced, xmlns declaration; pairs give both orders), one text run alone or first (plain and CDATA; special characters, quotes, non-ASCII, blanks), one comment / directive / processing instruction at every position, renamed elements (two namespace prefixes on the same local name, case, hyphen); a wide family (one element with 9-13, 33 and 65 sequenced members in the sibling patterns a*, (a,b)*, (a,a,b)*, with and without leading text, a comment and a processing instruction among them, at the root and one level down; 9-13 attributes on one element); paths NewMapXmlSeq->Xml, ->XmlIndent, BeautifyXml, BeautifyXml->NewMapFormattedXmlSeq->Xml, and XmlIndent followed by Xml on the same MapSeq. Oracle: the raw token stream of the output (encoding/xml RawToken) equals the stream the abstract tree denotes - exactly for Xml, modulo whitespace-only character data for the indented forms; text compared after the documented trimming. XMLEscapeChars(true). Ascending/descending map order; E-choice bound 1 on the smaller documents. non-trivial = round trip executed."
+	c.S.Rule = "cases = (document, path): documents are all element trees with <= N elements (sibling names over {a,b}, every interleaving) with <= D decorations from: attributes (plain, namespaced, xmlns declaration; pairs give both orders), one text run alone or first (plain and CDATA; special characters, quotes, non-ASCII, blanks), one comment / directive / processing instruction at every position, renamed elements (two namespace prefixes on the same local name, case, hyphen); a wide family (one element with 9-13, 33, 65, 99-101, 257 and 1001 sequenced members in the sibling patterns a*, (a,b)*, (a,a,b)*, with and without leading text, a comment and a processing instruction among them, at the root and one level down; 9-13 attributes on one element); paths NewMapXmlSeq->Xml, ->XmlIndent, BeautifyXml, BeautifyXml->NewMapFormattedXmlSeq->Xml, and XmlIndent followed by Xml on the same MapSeq. Oracle: the raw token stream of the output (encoding/xml RawToken) equals the stream the abstract tree denotes - exactly for Xml, modulo whitespace-only character data for the indented forms; text compared after the documented trimming. XMLEscapeChars(true). Ascending/descending map order; E-choice bound 1 on the smaller documents. non-trivial = round trip executed."
 	c.S.Assumptions = []string{"text is the first item of its element (property: alone or before its child elements)", "documents without prolog (the sequence decoder documents a no-root result for leading comments/PIs)"}
 	n1, n2, ech := 4, 3, 3
 	if c.Thorough {
@@ -339,7 +339,7 @@ func c04Wide() []*XElem {
 		}
 		return e
 	}
-	for _, k := range []int{9, 10, 11, 12, 13, 33, 65} {
+	for _, k := range []int{9, 10, 11, 12, 13, 33, 65, 99, 100, 101, 257, 1001} {
 		for pat := 0; pat < 3; pat++ {
 			for _, text := range []bool{false, true} {
 				for _, items := range []bool{false, true} {
